@@ -123,6 +123,7 @@ type Faults struct {
 	CloseErr     bool
 	ReadStall    bool // after a partial delivery the next read with a deadline expires first
 	Damage       int  // crash events damage up to this many records of the snapshot
+	WriteBlock   bool // the peer stops reading: writes on that connection block until a deadline or a Close
 	DamageOnce   bool // stops after the first damaged one leave the store as it is
 	BrokerResend bool // the broker retransmits an unacknowledged PUBLISH / repeats PUBREL on the same connection
 	Allow        func(w *World, kind string) bool
@@ -455,7 +456,20 @@ func (w *World) threadAlts(th *thread) (alts []alt, hasDefault bool) {
 			answer("ok(half-closed)", Cost{}, len(p), nil, respMode{}, true, false)
 			return alts, true
 		}
+		if c.wblock {
+			// the peer stopped reading: the write waits for its deadline (handled
+			// above) or for a Close from another goroutine
+			return alts, true
+		}
 		answer("ok", Cost{}, len(p), nil, respMode{}, false, false)
+		// (offered for requesters only: a read routine stuck in its own write
+		// without any deadline is where the application asked it to be)
+		if f.WriteBlock && w.allow("writeblock") && !strings.HasPrefix(th.name, "a:reader") && c.bk.connected {
+			alts = append(alts, alt{label: fmt.Sprintf("c%d peer stops reading (%s blocks in write)", c.id, th.name), cost: F, do: func() {
+				w.ev(Event{K: "wblock", T: th.name, C: c.id})
+				c.wblock = true
+			}})
+		}
 		if f.WriteCuts != nil && w.allow("writecut") {
 			for _, k := range f.WriteCuts(len(p)) {
 				if k < 0 || k >= len(p) {
